@@ -38,6 +38,10 @@ type c16Case struct {
 	FileSpell   int        `json:"file_spelling"` // 0 list of maps, 1 list of strings (all required), 2 single string (one file)
 	Discard     bool       `json:"discard"`
 	LabelsList  bool       `json:"labels_as_list"`
+	// Dangling: a missing env file i is not absent but a symbolic link whose target does not exist;
+	// Linked: an existing env file i is reached through a symbolic link
+	Dangling []bool `json:"dangling,omitempty"`
+	Linked   []bool `json:"linked,omitempty"`
 }
 
 func genC16(t *rapid.T) c16Case {
@@ -49,6 +53,8 @@ func genC16(t *rapid.T) c16Case {
 		req := rapid.IntRange(0, 2).Draw(t, "required") != 0
 		cs.Missing = append(cs.Missing, missing)
 		cs.Required = append(cs.Required, req)
+		cs.Dangling = append(cs.Dangling, missing && rapid.Bool().Draw(t, "dangling"))
+		cs.Linked = append(cs.Linked, !missing && rapid.IntRange(0, 3).Draw(t, "linked") == 0)
 	}
 	cs.EnvAsList = rapid.Bool().Draw(t, "envlist")
 	cs.LabelsList = rapid.Bool().Draw(t, "labelslist")
@@ -155,8 +161,13 @@ func (cs c16Case) build() (loadCase, map[string]*string, map[string]string, bool
 				}
 			}
 		}
-		if !cs.Missing[f] {
+		switch {
+		case !cs.Missing[f] && f < len(cs.Linked) && cs.Linked[f]:
+			files = append(files, memFile{Name: fmt.Sprintf("envs/real/target%d.env", f), Content: b.String()}, memFile{Name: fmt.Sprintf("envs/file%d.env", f), Link: fmt.Sprintf("real/target%d.env", f)})
+		case !cs.Missing[f]:
 			files = append(files, memFile{Name: fmt.Sprintf("envs/file%d.env", f), Content: b.String()})
+		case f < len(cs.Dangling) && cs.Dangling[f]:
+			files = append(files, memFile{Name: fmt.Sprintf("envs/file%d.env", f), Link: "nowhere/gone.env"})
 		}
 	}
 	// reference layering
